@@ -3,7 +3,8 @@
 spec/Algorithms.tla is the reference; harness/valgo.cc runs the real templates on
 (a) EVERY sequence over a small alphabet up to a length bound (TLC verifies the
 enumeration is complete and in order), (b) seeded longer sequences, (c) integer/range/
-indexer helpers over small ranges, (d) uniform / non-uniform grids with rank-abstracted
+indexer helpers over small ranges (hyperslab and ragged-right indexers, spans, exact bilinear
+interpolation on 2-D grids with dyadic data, float helpers where the exact result is representable), (d) uniform / non-uniform grids with rank-abstracted
 doubles at knots, +-1 ulp, and inside bins.  TLC validates every record (trace validation).
 """
 import re, json, os
@@ -26,6 +27,7 @@ def run(ctx):
         jobs.append(("seq3", ["seq", 6, 3], 1, 6))
         jobs.append(("rand", ["rand", ctx.seed, 300, 40, 6], 0, 0))
         jobs.append(("misc", ["misc"], 0, 0))
+        jobs.append(("misc2", ["misc2", ctx.seed], 0, 0))
         jobs.append(("grid", ["grid", ctx.seed, 1500], 0, 0))
     else:
         jobs.append(("seq4", ["seq", 7, 4], 1, 7))
@@ -34,6 +36,8 @@ def run(ctx):
         for i in range(6):
             jobs.append(("rand%d" % i, ["rand", ctx.seed + i, 1500, 120, 8], 0, 0))
         jobs.append(("misc", ["misc"], 0, 0))
+        for i in range(4):
+            jobs.append(("misc2_%d" % i, ["misc2", ctx.seed + i], 0, 0))
         for i in range(6):
             jobs.append(("grid%d" % i, ["grid", ctx.seed + 100 + i, 5000], 0, 0))
     tj = []
